@@ -93,9 +93,11 @@ class Result:
         os.makedirs(EVIDENCE, exist_ok=True)
         with open(os.path.join(EVIDENCE, '%s.json' % self.prop), 'w') as fh:
             json.dump(ev, fh, indent=1, default=repr)
+        # one line per finding listed for this property in known_findings.json (the file is never written at run time)
         for f in self.known:
-            if self.known_hits.get(f['id']):
-                print('KNOWN-FINDING: property=%s %s' % (self.prop, f['what']))
+            n = self.known_hits.get(f['id'], 0)
+            print('KNOWN-FINDING: property=%s %s [%s]' % (self.prop, f['what'], ('reproduced in this run: %d case(s)' % n) if n
+                                                         else "listed; not reached by this run's sample"))
         for v in self.violations:
             print('VIOLATION property=%s replay=%s%s' % (self.prop, v['replay'],
                                                          ' no-failing-input-found' if v['no_input'] else ''))
